@@ -138,6 +138,10 @@ def c09_task(task):
             out["violations"].append(_vio("c09:smoke-crash:" + mode, "driver linked against the %s build crashes on new()+close(): %s\n%s" % (mode, st, err[-800:]), th, ""))
             return out
     _cnt(out, "programs")
+    if th.get("member"):
+        feats["model_declaration"] = 1
+        if any(len(p["args"]) >= 3 for p in th["preds"] if p["name"] in th["member"]):
+            feats["member_pred_with_2plus_columns"] = 1
     for k, v in feats.items():
         out["features"][k] = out["features"].get(k, 0) + 1
     out["distinct"].append(sha(th.get("text") or emit(th))[:16])
@@ -157,6 +161,9 @@ def c09(tier, replay=None):
     ncomp = 70 if q else 800
     tasks = [{"spec": s, "seed": seed(), "component": i < ncomp} for i, s in enumerate(specs)]
     tasks += [{"spec": ("text", n, t), "seed": seed(), "component": True} for n, t in sorted(EXTRA_PROGRAMS.items())]
+    # programs with a `model` declaration (member predicates of several columns, morphism constants)
+    nm = 40 if q else 400
+    tasks += [{"spec": ("model", seed() * 100003 + 950000 + i), "seed": seed(), "component": i < (12 if q else 80)} for i in range(nm)]
     aggregate(res, pmap(c09_task, tasks))
     return res.finish()
 
